@@ -242,7 +242,8 @@ PROPS['C15'] = dict(
     assumptions=['float weights are non-negative or NaN (documented precondition)'],
 )
 
-M_FIXED = [K('m_fixed_contiguous_p8', 'models', 'fixed_contiguous_p8', tq=900), K('m_fixed_contiguous_p4', 'models', 'fixed_contiguous_p4', tq=900),
+M_FIXED = [K('m_fixed_contiguous_p8', 'models', 'fixed_contiguous_p8', tq=1500), K('m_fixed_contiguous_p4', 'models', 'fixed_contiguous_p4', tq=1500),
+           K('m_fixed_contiguous_quantile_p8', 'models', 'fixed_contiguous_quantile_p8', tq=1500), K('m_fixed_contiguous_quantile_p4', 'models', 'fixed_contiguous_quantile_p4', tq=1500),
            K('m_fixed_noncontig_p8', 'models', 'fixed_noncontig_p8', tq=900), K('m_fixed_noncontig_p4', 'models', 'fixed_noncontig_p4', tiers=('thorough',)),
            K('m_fixed_lookup_p4', 'models', 'fixed_lookup_p4', tq=900), K('m_fixed_lookup_p8', 'models', 'fixed_lookup_p8', tiers=('thorough',))]
 M_UNIFORM = [K('m_uniform_u8_p8', 'models', 'uniform_u8_p8', tq=600), K('m_uniform_u8_p5', 'models', 'uniform_u8_p5', tq=600)]
@@ -324,4 +325,39 @@ PROPS['C17'] = dict(
     outside='longer buffers/scripts; Word types other than u8 (the back ends never do arithmetic on words); SmallVec (its own unsafe code is outside '
             'constriction; the impl only forwards to push/pop/truncate exactly like Vec)',
     assumptions=['cursor pre-states are built by the public constructors (pos <= len)'],
+)
+
+
+# ---------------------------------------------------------------- C20: UB layer over harnesses of the other properties + dedicated harnesses
+def _ub(o):
+    d = dict(o); d['id'] = 'c20_ub_' + o['id']; d['only_ub'] = True; d['lib_panics'] = 'allow'
+    return d
+
+_C20_SHARED = [o for pid in ('C17', 'C01', 'C16', 'C03', 'C19', 'C08') for o in PROPS[pid]['obligations']
+               if o['engine'] == 'K' and o['id'] in (
+                   'c17_cursor_script', 'c17_reversed_equiv', 'c17_vec_stack', 'c17_cursor_none_sticky',
+                   'c01_ctor_u8_u16', 'c01_ctor_u32_u64', 'c01_reimport_u16_u32', 'c01_export_u32_u64',
+                   'c16_stack_export_import', 'c16_queue_fifo', 'c16_expgolomb_u8',
+                   'm_uniform_u8_p8', 'm_uniform_u8_p5', 'm_fast_f32_n3_p4_norm1', 'm_quantizer_u8_p4_sup3', 'm_fast_f32_n2_p3_anyinput', 'm_uniform_rejects',
+                   'm_fixed_contiguous_p8', 'm_fixed_contiguous_quantile_p8', 'm_fixed_noncontig_p8', 'm_fixed_lookup_p4',
+                   'c08_range_guard_inverted_u8_u16', 'c08_bit_stack_guard')]
+_seen = set(); _C20 = []
+for o in _C20_SHARED:
+    if o['id'] not in _seen:
+        _seen.add(o['id']); _C20.append(_ub(o))
+
+PROPS['C20'] = dict(
+    obligations=[K('c20_cursor_buf_mut_restricted', 'c17', 'c20_cursor_buf_mut_restricted', tq=600, lib_panics='allow')] + _C20 + [
+        L('c20_nopanic_ans', 'k_c10_ans_{cfg}', ['u8_u16_p8', 'u16_u32_p12', 'u32_u64_p24', 'u32_u64_p32']),
+        L('c20_nopanic_range', 'k_c10_range_{cfg}', ['u8_u16_p8', 'u16_u32_p16', 'u32_u64_p24']),
+        L('c20_nopanic_range_step', 'k_c10_range_step_{cfg}', ['u8_u16_p8', 'u32_u64_p24'], soft=INV_SOFT, fixes=range_fixes),
+        L('c20_nopanic_chain', 'k_c13_step_{cfg}', ['u8_u16_p4', 'u32_u64_p24'], soft=[20, 21], fixes=cuts_fixes),
+    ],
+    bounds='UB-class checks of Kani/CBMC (pointer dereference validity incl. get_unchecked(_mut), reaching unreachable_unchecked, std unsafe-precondition assertions such as '
+           'NonZero::new_unchecked(0), division by zero) on every path of a selection of harnesses of C01-C19 at their bounds (functional assertions of those harnesses are ignored here), '
+           'a dedicated harness for buffers changed through Cursor::buf_mut (restricted to the complement of the recorded known finding), and engine-L queries "no panic / overflow / unreachable / '
+           'out-of-object access reachable" at full width (the "only correct because release builds wrap" clause: kernels are built with overflow checks compiled in)',
+    outside='thread-related UB (none in the crate); UB that needs allocation failure; layouts other than x86-64; API sequences longer than the harness scripts; AddressSanitizer runs '
+            '(a dynamic technique, not part of this family)',
+    assumptions=['a panic or an error value is an accepted failure mode'],
 )
